@@ -10,7 +10,7 @@ variable {upper : Text → Text} {f : TType → Text → Text}
 def MatchSt.respell (f : TType → Text → Text) (st : MatchSt) : MatchSt :=
   { st with cur := st.cur.map (Sql.respell f) }
 
-theorem matchStep_respell (ha : Admissible upper f) (cls : Cls) (o cl : List MPat) (ho : SafePats o = true)
+theorem matchStep_respell (ha : AdmissibleNames upper f) (cls : Cls) (o cl : List MPat) (ho : SafePats o = true)
     (hc : SafePats cl = true) (st : MatchSt) (idx : Nat) (token : Node) :
     matchStep upper cls o cl (st.respell f) idx (respell f token) =
       (matchStep upper cls o cl st idx token).map (MatchSt.respell f) := by
@@ -35,7 +35,7 @@ theorem matchStep_respell (ha : Admissible upper f) (cls : Cls) (o cl : List MPa
       cases groupTokens st.cur cls a (idx - st.off) <;> simp [MatchSt.respell]
   · simp [h4]
 
-theorem matchLoop_respell (ha : Admissible upper f) (cls : Cls) (o cl : List MPat) (ho : SafePats o = true)
+theorem matchLoop_respell (ha : AdmissibleNames upper f) (cls : Cls) (o cl : List MPat) (ho : SafePats o = true)
     (hc : SafePats cl = true) (snap : List Node) (idx : Nat) (st : MatchSt) :
     matchLoop upper cls o cl (snap.map (respell f)) idx (st.respell f) =
       (matchLoop upper cls o cl snap idx st).map (MatchSt.respell f) := by
@@ -47,7 +47,7 @@ theorem matchLoop_respell (ha : Admissible upper f) (cls : Cls) (o cl : List MPa
     | error e => rfl
     | ok st' => simp only [Except.map_ok']; exact ih (idx + 1) st'
 
-theorem groupMatching_respell (ha : Admissible upper f) (cls : Cls) (o cl : List MPat) (ho : SafePats o = true)
+theorem groupMatching_respell (ha : AdmissibleNames upper f) (cls : Cls) (o cl : List MPat) (ho : SafePats o = true)
     (hc : SafePats cl = true) (fuel : Nat) (ks : List Node) :
     groupMatching upper cls o cl fuel (ks.map (respell f)) =
       (groupMatching upper cls o cl fuel ks).map (List.map (respell f)) := by
@@ -65,13 +65,13 @@ theorem groupMatching_respell (ha : Admissible upper f) (cls : Cls) (o cl : List
       rw [this]
       cases matchLoop upper cls o cl ks' 0 { cur := ks', opens := [], off := 0 } <;> rfl
 
-theorem matchingPass_respell (ha : Admissible upper f) (cls : Cls) (o cl : List MPat) (ho : SafePats o = true)
+theorem matchingPass_respell (ha : AdmissibleNames upper f) (cls : Cls) (o cl : List MPat) (ho : SafePats o = true)
     (hc : SafePats cl = true) : PassComm f (matchingPass upper cls o cl) :=
   fun fuel _ ks => groupMatching_respell ha cls o cl ho hc fuel ks
 
 theorem unknownPass_respell : PassComm f unknownPass := fun _ _ _ => rfl
 
-theorem matchingPassOf_respell (ha : Admissible upper f) (c : Cls) : PassComm f (matchingPassOf upper c) := by
+theorem matchingPassOf_respell (ha : AdmissibleNames upper f) (c : Cls) : PassComm f (matchingPassOf upper c) := by
   unfold matchingPassOf
   cases c <;> simp only [matchingTables] <;>
     first
